@@ -1,5 +1,6 @@
 import OnetVerif.Model.C17
 import OnetVerif.Proofs.C17Accept
+import OnetVerif.Proofs.C17Dial
 import OnetVerif.Shapes
 /-! Property C17 — valid-peer sets decide exactly who may connect.
 Property theorems (`c17_…`), the lemmas they need, witnesses and non-vacuity examples. -/
@@ -1035,6 +1036,77 @@ theorem c17_tls_uri_key_must_not_be_the_proven_one :
 example : Tls.offer false (VP.set none [1] [Ident.honest 1]) (Tls.Cert.honest 1) (Ident.honest 1) = .dispatched := by decide
 example : Tls.offer false (VP.set none [1] [Ident.honest 1]) (Tls.Cert.honest 9) (Ident.honest 9) = .refused := by decide
 example : Tls.offer false none { cn := 1, uri := none, signer := 1, signedName := 1 } (Ident.honest 2) = .identityRefused := by decide
+
+
+/-! ### round 7 — dialling and accepting goroutines, `SetValidPeers` and `Stop` interleaved (`Model/C17Dial.lean`) -/
+
+
+/-- **every dispatched message, whatever runs concurrently**: for every interleaving of accepting goroutines,
+dialling goroutines (`Router.connect`), `SetValidPeers` calls, receive-loop turns, connections ending and
+`Router.Stop` — a message is dispatched only over a connection the router dialled itself, or over an accepted
+connection whose peer's key was valid against the table that `isPeerValid` looked at.  Falsified by a path into the
+table that skips the test for an *accepted* connection (e.g. registering before the test and testing afterwards, or
+a dialling goroutine's connection being reused for the identity of an accepting one). -/
+theorem c17_concurrent_dial_accept (acts : List Dial.Act) :
+    ∀ e ∈ (Dial.run {} acts).log,
+      e.side = .dialled ∨ ∃ v, e.vpThen = some v ∧ v.isValid e.peer = true := by
+  intro e he
+  have h := (Dial.inv_run {} Dial.inv_init acts).2 e he
+  cases hs : e.side
+  · exact Or.inr (h.1 hs)
+  · exact Or.inl rfl
+
+/-- … and the same for what is in the table at any moment: an entry is a connection the router dialled, or one that
+passed the test (against the table of that moment — later `SetValidPeers` calls do not take it out) -/
+theorem c17_table_entries_justified (acts : List Dial.Act) :
+    ∀ t ∈ (Dial.run {} acts).thrs, t.listed = true →
+      t.side = .dialled ∨ ∃ v, t.vpThen = some v ∧ v.isValid t.peer = true := by
+  intro t ht hl
+  have h := (Dial.inv_run {} Dial.inv_init acts).1 t ht
+  cases hs : t.side
+  · refine Or.inr (h.1 hs ?_)
+    simp only [Dial.Thr.listed, Bool.or_eq_true, beq_iff_eq] at hl
+    rcases hl with hl | hl
+    · exact Or.inr (Or.inl hl)
+    · exact Or.inr (Or.inr hl)
+  · exact Or.inl rfl
+
+/-- the ghost table is the real one: the test of accepted connection `k` reads the table as it is at that moment -/
+theorem c17_check_reads_the_current_table (s : Dial.State) (k : Nat) (t : Dial.Thr) (hk : s.thrs[k]? = some t)
+    (ha : t.side = .accepted) (hf : t.ph = .fresh) :
+    (Dial.step s (.check k)).thrs[k]? =
+      some (if s.vp.isValid t.peer then { t with ph := .checked, vpThen := some s.vp } else { t with ph := .ended }) := by
+  obtain ⟨hlt, he⟩ := List.getElem?_eq_some_iff.mp hk
+  simp only [Dial.step, Dial.upd, hk, List.getElem?_set_self hlt, Dial.checkThr, ha, hf, and_self, if_true]
+
+/-- **the dialling side is not filtered, whatever the sets become meanwhile**: on an open router a connection the
+router opens itself goes from `connect` into the table and to its first dispatched message with `SetValidPeers`
+calls at every point in between — no table makes a difference.  (The property's statement is about connections
+*offered by* a peer; this records that the other direction is outside it.) -/
+theorem c17_dialled_is_never_tested (s : Dial.State) (hopen : s.closed = false) (p : Ident) (m : Nat)
+    (i1 i2 i3 : SetId) (l1 l2 l3 : List Ident) :
+    let k := s.thrs.length
+    let s' := Dial.run s [.dial p, .setPeers i1 l1, .register k, .setPeers i2 l2, .launch k, .setPeers i3 l3, .recv k m]
+    s'.log = s.log ++ [{ peer := p, m := m, side := .dialled, vpThen := none }] ∧
+    s'.thrs[k]? = some { side := .dialled, peer := p, ph := .running } := by
+  simp [Dial.run, Dial.step, Dial.upd, Dial.registerThr, Dial.launchThr, hopen]
+
+/-- witness: the peer with key 9 is in no set; the router dials it and serves its messages -/
+theorem c17_dial_to_a_non_member_is_served :
+    let s := Dial.run {} [.setPeers [1] [Ident.honest 1], .arrive (Ident.honest 9), .check 0, .dial (Ident.honest 9),
+      .register 0, .register 1, .launch 1, .recv 1 7]
+    s.vp.isValid (Ident.honest 9) = false ∧ (s.thrs.map (·.ph)) = [.ended, .running] ∧
+    s.log = [{ peer := Ident.honest 9, m := 7, side := .dialled, vpThen := none }] := by
+  decide
+
+/-- non-vacuity: an accepted and a dialled connection set up in lock step with a replacement of the set in between;
+the accepted one keeps the table it was tested against -/
+example :
+    let s := Dial.run {} [.setPeers [1] [Ident.honest 1], .arrive (Ident.honest 1), .dial (Ident.honest 2), .check 0,
+      .setPeers [1] [], .register 1, .register 0, .launch 0, .launch 1, .recv 0 5, .recv 1 6]
+    s.log.map (fun e => (e.peer.key, e.m, e.side)) = [(1, 5, .accepted), (2, 6, .dialled)] ∧
+    s.vp.isValid (Ident.honest 1) = false := by
+  decide
 
 
 /-! ### the code regions the model stands for
